@@ -2,8 +2,8 @@
    (ZERO) representation, on the whole strip -eta2 < s < eta1 of the real axis (improper integral = limit of finite ones). *)
 From Coq Require Import Reals Lra Psatz Bool.
 From Coquelicot Require Import Coquelicot.
-From RV Require Import Base.RB Gen.GenC09Hem Gen.GenC10Triplet Gen.GenC10Hem Gen.GenC10Exp Model.LevyClosedForms Model.LevyExponent
-  Proofs.C09_Generic Proofs.C09_Hem Proofs.C09_HemHalf Proofs.C10_Triplet.
+From RV Require Import Base.RB Gen.GenC09Hem Gen.GenC09Trunc Gen.GenC10Triplet Gen.GenC10Hem Gen.GenC10Exp Model.LevyClosedForms Model.LevyExponent
+  Proofs.C09_Generic Proofs.C09_Hem Proofs.C09_HemHalf Proofs.C10_Triplet Proofs.C10_Exponent.
 Open Scope R_scope.
 
 Section HemLK.
@@ -128,6 +128,119 @@ Proof.
 Qed.
 End HemCtmc.
 
+(* ------------------------------------------------------------------ HEM, Markov-chain route WITH the truncation the code applies.
+   The chain works with nu_T = nu restricted to [l, r] (here -1 < l < 0 < r < 1, a grid inside (-1,1)): first moments through
+   TruncatedLevyMeasure.integrate_against_x, i.e. m1t = truncated_integrate (generated hem_integrate_x) l r, and the exact law of
+   the chain's jumps has compensated exponential moment Jct = int_l^r (e^x - 1 - x) hem_nu; omega still comes from the
+   un-truncated exponent.  Everything below is about the generated density and closed forms, no free number. *)
+Section HemCtmcTruncated.
+Variables INF lam p e1 e2 l r : R.
+Hypothesis He1 : 1 < e1.
+Hypothesis He2 : 0 < e2.
+Hypothesis Hl : -1 < l < 0.
+Hypothesis Hr : 0 < r < 1.
+Hypothesis HINF : 1 < INF.
+
+Let F := hem_integrate_x INF lam p e1 e2.
+Let m1t := truncated_integrate F l r.
+
+Lemma m1t_clip a b aa bb : a <= b -> truncated_interval l r a b = (aa, bb) -> aa <> bb -> m1t a b = F aa bb.
+Proof.
+  intros Hab E N. unfold m1t, truncated_integrate.
+  replace (Rltb b a) with false by (symmetry; apply Rltb_false; assumption).
+  rewrite E. rewrite (Reqb_ne aa bb) by assumption. reflexivity.
+Qed.
+Lemma m1t_empty a b x : a <= b -> truncated_interval l r a b = (x, x) -> m1t a b = 0.
+Proof.
+  intros Hab E. unfold m1t, truncated_integrate.
+  replace (Rltb b a) with false by (symmetry; apply Rltb_false; assumption).
+  rewrite E. rewrite Reqb_same. reflexivity.
+Qed.
+Lemma m1t_mid : m1t (-1) 1 = F l r.
+Proof.
+  apply m1t_clip; [lra | | lra]. rewrite truncated_interval_eq.
+  rewrite (Rmin_left (-1) r), (Rmax_right (-1) l), (Rmax_left 1 l), (Rmin_right 1 r) by lra. reflexivity.
+Qed.
+Lemma m1t_left_tail : m1t (- INF) (-1) = 0.
+Proof.
+  apply (m1t_empty _ _ l); [lra|]. rewrite truncated_interval_eq.
+  rewrite (Rmin_left (- INF) r), (Rmax_right (- INF) l), (Rmax_right (-1) l), (Rmin_left l r) by lra. reflexivity.
+Qed.
+Lemma m1t_right_tail : m1t 1 INF = 0.
+Proof.
+  apply (m1t_empty _ _ r); [lra|]. rewrite truncated_interval_eq.
+  rewrite (Rmin_right 1 r), (Rmax_left r l), (Rmax_left INF l), (Rmin_right INF r) by lra. reflexivity.
+Qed.
+Lemma m1t_neg : m1t (- INF) (- 0) = F l 0.
+Proof.
+  rewrite Ropp_0. apply m1t_clip; [lra | | lra]. rewrite truncated_interval_eq.
+  rewrite (Rmin_left (- INF) r), (Rmax_right (- INF) l), (Rmax_left 0 l), (Rmin_left 0 r) by lra. reflexivity.
+Qed.
+Lemma m1t_pos : m1t 0 INF = F 0 r.
+Proof.
+  apply m1t_clip; [lra | | lra]. rewrite truncated_interval_eq.
+  rewrite (Rmin_left 0 r), (Rmax_left 0 l), (Rmax_left INF l), (Rmin_right INF r) by lra. reflexivity.
+Qed.
+Lemma F_split : F l 0 + F 0 r = F l r.
+Proof. unfold F. symmetry. apply hem_integrate_x_straddle; lra. Qed.
+
+Definition J0t : R := (Fn lam p e2 1 0 - Fn lam p e2 1 l) + (Fp lam p e1 1 r - Fp lam p e1 1 0).
+
+Lemma lk_hem_trunc_RInt : is_RInt (lk_hem lam p e1 e2 1) l r J0t.
+Proof.
+  unfold J0t. apply (chasles_R _ l 0 r).
+  - apply lk_hem_neg_RInt; lra.
+  - apply lk_hem_pos_RInt; lra.
+Qed.
+Lemma comp_hem_trunc_RInt : is_RInt (comp_hem lam p e1 e2) l r (J0t - F l r).
+Proof.
+  apply is_RInt_ext_R with (f := fun x => lk_hem lam p e1 e2 1 x - x ^ 1 * hem_nu lam p e1 e2 x).
+  { intros x _. symmetry. apply comp_hem_split. }
+  apply (is_RInt_minus (lk_hem lam p e1 e2 1) (fun x => x ^ 1 * hem_nu lam p e1 e2 x) l r).
+  - apply lk_hem_trunc_RInt.
+  - unfold F. apply hem_x_is_RInt; try lra; split; lra.
+Qed.
+
+(* the removed exponential moment, in closed form: right tail - |left tail| *)
+Definition removed_tail : R :=
+  lam * p * exp (- e1 * r) * (e1 / (e1 - 1) * exp r - 1) + lam * (1 - p) * exp (e2 * l) * (e2 / (e2 + 1) * exp l - 1).
+
+Lemma removed_tail_spec : hem_pj lam p e1 e2 1 - J0t = removed_tail.
+Proof.
+  rewrite (hem_pj_is_LK lam p e1 e2 1) by lra. unfold J0t, Ln, Lp, Fn, Fp, removed_tail.
+  replace (- (e1 - 1) * r) with (- e1 * r + r) by ring. replace ((e2 + 1) * l) with (e2 * l + l) by ring.
+  rewrite !exp_plus. replace (- (e1 - 1) * 0) with 0 by ring. replace ((e2 + 1) * 0) with 0 by ring.
+  replace (- e1 * 0) with 0 by ring. replace (e2 * 0) with 0 by ring. rewrite exp_0. field. split; lra.
+Qed.
+
+Theorem hem_ctmc_truncated r0 d sigma mu_h :
+  ctmc_growth_exact
+    (ctmc_process_drift (exp_model_drift r0 d (omega_of (hem_a lam p e1 e2) sigma (hem_pj lam p e1 e2)))
+                        (tilde_drift INF m1t true (hem_a lam p e1 e2) (rep_code ZERO)) (ctmc_mu_tilde INF m1t true) mu_h)
+    mu_h sigma (J0t - F l r)
+  = r0 - d - removed_tail.
+Proof.
+  rewrite <- removed_tail_spec.
+  apply (ctmc_truncation_bias_zero INF m1t (hem_a lam p e1 e2) r0 d sigma (hem_pj lam p e1 e2) (hem_pj lam p e1 e2 1) J0t (F l r) mu_h).
+  - rewrite m1t_neg, m1t_pos, m1t_left_tail, m1t_mid, m1t_right_tail, F_split. ring.
+  - reflexivity.
+  - rewrite m1t_left_tail, m1t_mid, m1t_right_tail. ring.
+Qed.
+
+(* with upward jumps only (p = 1) the removed tail is strictly positive: the chain's forward is strictly below S0 exp((r-d)T) *)
+Lemma removed_tail_pos : p = 1 -> 0 < lam -> 0 < removed_tail.
+Proof.
+  intros Hp Hlam. unfold removed_tail. rewrite Hp.
+  replace (lam * (1 - 1) * exp (e2 * l) * (e2 / (e2 + 1) * exp l - 1)) with 0 by ring.
+  assert (H1 : 1 < exp r) by (rewrite <- exp_0; apply exp_increasing; lra).
+  assert (H2 : 1 < e1 / (e1 - 1)) by (apply Rmult_lt_reg_r with (e1 - 1); [lra | field_simplify; lra]).
+  assert (H3 : 0 < e1 / (e1 - 1) * exp r - 1) by nra.
+  pose proof (exp_pos (- e1 * r)).
+  assert (0 < lam * 1 * exp (- e1 * r) * (e1 / (e1 - 1) * exp r - 1)) by (repeat apply Rmult_lt_0_compat; lra).
+  lra.
+Qed.
+End HemCtmcTruncated.
+
 (* assembled statements for Properties/C10.v *)
 Theorem hem_exponent_is_LK lam p e1 e2 s : 0 < e1 -> 0 < e2 -> - e2 < s < e1 ->
   is_lim (fun a => RInt (fun x => lk_integrand ZERO true s x * hem_nu lam p e1 e2 x) a 0) m_infty (Ln lam p e2 s) /\
@@ -151,4 +264,21 @@ Proof.
   - apply (comp_hem_left INF lam p e1 e2); assumption.
   - apply (comp_hem_right INF lam p e1 e2); assumption.
   - apply (hem_martingale_ctmc INF lam p e1 e2 H1 H2 HI).
+Qed.
+Theorem hem_ctmc_truncated_route INF lam p e1 e2 l r r0 d sigma mu_h : 1 < e1 -> 0 < e2 -> -1 < l < 0 -> 0 < r < 1 -> 1 < INF ->
+  let m1t := truncated_integrate (hem_integrate_x INF lam p e1 e2) l r in
+  let Jct := J0t lam p e1 e2 l r - hem_integrate_x INF lam p e1 e2 l r in
+  let growth := ctmc_growth_exact
+    (ctmc_process_drift (exp_model_drift r0 d (omega_of (hem_a lam p e1 e2) sigma (hem_pj lam p e1 e2)))
+                        (tilde_drift INF m1t true (hem_a lam p e1 e2) (rep_code ZERO)) (ctmc_mu_tilde INF m1t true) mu_h)
+    mu_h sigma Jct in
+  is_RInt (fun x => (exp x - 1 - x) * hem_nu lam p e1 e2 x) l r Jct /\
+  growth = r0 - d - removed_tail lam p e1 e2 l r /\
+  (p = 1 -> 0 < lam -> growth < r0 - d).
+Proof.
+  intros H1 H2 Hl Hr HI m1t Jct growth. repeat split.
+  - apply (comp_hem_trunc_RInt INF lam p e1 e2 l r); assumption.
+  - apply (hem_ctmc_truncated INF lam p e1 e2 l r H1 H2 Hl Hr HI).
+  - intros Hp Hlam. unfold growth, m1t, Jct. rewrite (hem_ctmc_truncated INF lam p e1 e2 l r H1 H2 Hl Hr HI).
+    pose proof (removed_tail_pos lam p e1 e2 l r H1 Hr Hp Hlam). lra.
 Qed.
